@@ -9,6 +9,7 @@ import Orx.GenThms.Iter
 import Orx.GenThms.Ctor
 import Orx.GenThms.Defaults
 import Orx.GenThms.Loops
+import Orx.GenThms.Surface
 /-! # C11 try_get_len / has_more are truthful; 'No' is definitive -/
 namespace Orx.Props.C11
 open Orx Orx.KS
@@ -120,5 +121,19 @@ length that other consumers of `inner` could falsify -/
 theorem source_views_define_next_only :
     GenL.Values.iterator_overrides = ["next"] ∧ GenL.IdsAndValues.iterator_overrides = ["next"] :=
   GenThms.Loops.wrappers_override_only_next
+
+section Surface
+open Orx.GenThms.Surface
+
+/-- `has_more` is the trait's default body over `try_get_len` for every kind (no implementor overrides it) -/
+theorem source_has_more_is_the_trait_default :
+    (implementors.all fun x => (fnsOf "ConcurrentIter" x).length == 1 &&
+      (fnsOf "ConcurrentIter" x).all (sameSet requiredConcurrentIter)) = true ∧
+    sameSet (implsOf "ConcurrentIter") implementors = true ∧
+    fnsOf "trait" "ConcurrentIter" = [["into_seq_iter", "next_id_and_value", "next_chunk", "buffered_iter", "next", "values",
+      "ids_and_values", "skip_to_end", "for_each", "enumerate_for_each", "fold", "try_get_len", "has_more"]] :=
+  Orx.GenThms.Surface.concurrent_iter_defaults_are_not_overridden
+
+end Surface
 
 end Orx.Props.C11
